@@ -137,6 +137,25 @@ var preciseFamilies = map[string]bool{
 	"num-integer-keyword": true, "num-keyword": true, "num-other": true,
 }
 
+// nameLike: the faulted value is a name that other places refer to (a parameter
+// name used by the path template, an operationId, a reference): breaking it is
+// legitimately noticed where the name is used.
+func nameLike(target []string) bool {
+	if len(target) == 0 {
+		return false
+	}
+	switch target[len(target)-1] {
+	case "name", "operationId", "$ref", "operationRef", "propertyName":
+		return true
+	}
+	for _, k := range target {
+		if k == "mapping" || k == "security" || k == "required" || k == "tags" {
+			return true
+		}
+	}
+	return false
+}
+
 // unattributedIsViolation: positions that no acceptance rule explains are
 // violations when the unmutated base passes (the fault is then the only cause).
 const unattributedIsViolation = true
@@ -317,7 +336,7 @@ func evalMutant(c mutCase) (o outcome) {
 			// number, a bad escape in a key) leave no room for doubt about the
 			// offending node: the position must be that entry (key or value) or
 			// lie inside it, not at an ancestor or a neighbour.
-			if preciseFamilies[a.Label] && lab != "at-fault" && lab != "inside-fault" && lab != "unattributed" && lab != "not-at-a-node-start" {
+			if preciseFamilies[a.Label] && !nameLike(a.Target) && lab != "at-fault" && lab != "inside-fault" && lab != "unattributed" && lab != "not-at-a-node-start" {
 				cands := ixJ.at(l.Line, l.Col)
 				where := "?"
 				if len(cands) > 0 {
